@@ -1,38 +1,98 @@
-"""C14 — agent registry consistency.  Probe + Gen obligations + correspondence (exhaustive short
-histories, random long ones) + independent reference check of the property on the real code."""
-import itertools
+"""C14 — agent registry consistency.  Probes + Gen obligations + correspondence (exhaustive short
+histories, random long ones, queries both after every operation and as sparse operations of their own)
++ independent reference check of the property on the real code.
+
+Wave 2: `random_agents` with a scripted random source (same draws for the real code and the Lean
+driver) and with the real RNG (reference property only); `Model.configure` (dict variant); factories
+whose agents carry an `agent_type` attribute different from the registered key (off-contract: model
+correspondence is informative, only the unconditional clauses are reference-checked); unregistered
+types (KeyError paths); caller mutation of the list returned by `agent_ids` (aliasing fact)."""
+import itertools, json, random as _pyrandom
 from common import *
 
-TYPES = ["a", "b"]
+TYPES = ["a", "b", "c"]          # "a", "b" are registered; "c" never is
+REG = [0, 1]
 STATES = ["active", "s1", "s2"]
+PROP_NAMES = ["p1", "agents", "next_agent_id", "agent_type_map", "lk"]
 
 
-def new_model():
+def fac_attr(fac, k, i):
+    l = (fac or {}).get(k)
+    return k if not l else l[i % len(l)]
+
+
+def is_faithful(fac):
+    return all((not l) or all(a == k for a in l) for k, l in (fac or {}).items())
+
+
+def new_model(fac=None):
     from BPTK_Py import Model, Agent, DataCollector, SimultaneousScheduler
     m = Model(1, 3, 1, name="c14", scheduler=SimultaneousScheduler(), data_collector=DataCollector())
-    for t in TYPES:
-        m.register_agent_factory(t, (lambda tt: (lambda aid, model, props: Agent(aid, model, props, tt)))(t))
+    for k in REG:
+        m.register_agent_factory(TYPES[k], (lambda kk: (lambda aid, model, props: Agent(aid, model, props, TYPES[fac_attr(fac, kk, aid)])))(k))
     return m
 
 
-# ---- operations: ("create", ty) ("delete", [ids]) ("configure", [(ty,n)..]) ("reset",) ("setstate", id, st)
+class Scripted:
+    """Stands in for the `random` module inside BPTK_Py.modeling.model while one query runs:
+    `random()` answers the scripted values u/64; anything else is the real module's."""
+    def __init__(self, us):
+        self.us, self.calls = list(us), 0
+    def random(self):
+        u = self.us[self.calls] if self.calls < len(self.us) else 0
+        self.calls += 1
+        return u / 64.0
+    def __getattr__(self, name):
+        return getattr(_pyrandom, name)
+
+
+# ---- operations
+# ("create", k) ("delete", [ids]) ("configure", [(k,n)..]) ("configureall", [(k,n)..], variant) ("reset",)
+# ("setstate", id, st) ("callerappend", t, x)
+# ("q", "lookup", i) ("q","ids",t) ("q","cnt",t) ("q","cps",t,s) ("q","nx",t,s) ("q","rnd",t,num,[u..])
+def config_dict(spec, variant):
+    props_d = {PROP_NAMES[(variant + j) % len(PROP_NAMES)]:
+               ({"type": "Lookup", "value": [[0, 1], [1, 2]]} if PROP_NAMES[(variant + j) % len(PROP_NAMES)] == "lk"
+                else {"type": "Integer", "value": variant + j}) for j in range(variant % 3)}
+    props = props_d if variant % 2 == 0 else [{"name": n, "type": p["type"], "value": p} for n, p in props_d.items()]
+    agents = []
+    for j, (t, n) in enumerate(spec):
+        d = {"name": TYPES[t], "count": n}
+        if (variant + j) % 2:
+            d["properties"] = {"x": {"type": "Integer", "value": j}}
+        agents.append(d)
+    return {"runspecs": {"starttime": 1 + variant % 2, "stoptime": 5 + variant, "dt": [1, 0.5, 0.25][variant % 3]},
+            "properties": props, "agents": agents}
+
+
 def apply_real(m, op):
+    """Performs the operation; returns "ok" / "ERR" (raised) or, for queries, the canonical answer."""
     k = op[0]
-    if k == "create":
-        m.create_agent(TYPES[op[1]], {})
-    elif k == "delete":
-        if len(op[1]) == 1:
-            m.delete_agent(op[1][0])
-        else:
-            m.delete_agents(list(op[1]))
-    elif k == "configure":
-        m.configure_agents([{"name": TYPES[t], "count": n} for t, n in op[1]])
-    elif k == "reset":
-        m.reset()
-    elif k == "setstate":
-        a = m.agent(op[1])
-        if a is not None:
-            a.state = STATES[op[2]]
+    if k == "q":
+        return query_one(m, op)
+    try:
+        if k == "create":
+            m.create_agent(TYPES[op[1]], {})
+        elif k == "delete":
+            if len(op[1]) == 1:
+                m.delete_agent(op[1][0])
+            else:
+                m.delete_agents(list(op[1]))
+        elif k == "configure":
+            m.configure_agents([{"name": TYPES[t], "count": n} for t, n in op[1]])
+        elif k == "configureall":
+            m.configure(config_dict(op[1], op[2]))
+        elif k == "reset":
+            m.reset()
+        elif k == "setstate":
+            a = m.agent(op[1])
+            if a is not None:
+                a.state = STATES[op[2]]
+        elif k == "callerappend":
+            m.agent_ids(TYPES[op[1]]).append(op[2])
+        return "ok"
+    except Exception:
+        return "ERR"
 
 
 def op_line(op):
@@ -41,54 +101,118 @@ def op_line(op):
         return f"create {op[1]}"
     if k == "delete":
         return "delete " + (",".join(map(str, op[1])) or "-")
-    if k == "configure":
-        return "configure " + (",".join(f"{t}:{n}" for t, n in op[1]) or "-")
+    if k in ("configure", "configureall"):
+        return k + " " + (",".join(f"{t}:{n}" for t, n in op[1]) or "-")
     if k == "reset":
         return "reset"
-    return f"setstate {op[1]} {op[2]}"
+    if k == "setstate":
+        return f"setstate {op[1]} {op[2]}"
+    if k == "callerappend":
+        return f"callerappend {op[1]} {op[2]}"
+    if op[1] == "rnd":
+        return f"q rnd {op[2]} {op[3]} " + (",".join(map(str, op[4])) or "-")
+    return "q " + " ".join(map(str, op[1:]))
+
+
+def parse_line(l, variant=0):
+    p = l.split()
+    spec = lambda s: [] if s == "-" else [tuple(map(int, x.split(":"))) for x in s.split(",")]
+    nats = lambda s: [] if s == "-" else [int(x) for x in s.split(",")]
+    if p[0] == "create": return ("create", int(p[1]))
+    if p[0] == "delete": return ("delete", nats(p[1]))
+    if p[0] == "configure": return ("configure", spec(p[1]))
+    if p[0] == "configureall": return ("configureall", spec(p[1]), variant)
+    if p[0] == "reset": return ("reset",)
+    if p[0] == "setstate": return ("setstate", int(p[1]), int(p[2]))
+    if p[0] == "callerappend": return ("callerappend", int(p[1]), int(p[2]))
+    if p[0] == "q" and p[1] == "rnd": return ("q", "rnd", int(p[2]), int(p[3]), nats(p[4]))
+    if p[0] == "q": return ("q", p[1]) + tuple(int(x) for x in p[2:])
+    raise ValueError(l)
+
+
+def _tyidx(s):
+    return TYPES.index(s) if s in TYPES else 99
+
+
+def _agent_str(i, a):
+    return f"a{i}=none" if a is None else f"a{i}={a.id}.{_tyidx(a.agent_type)}.{STATES.index(a.state)}"
+
+
+def _guard(f):
+    try:
+        return f()
+    except Exception:
+        return "ERR"
+
+
+def query_one(m, op, scripted=True):
+    import BPTK_Py.modeling.model as mm
+    kind = op[1]
+    if kind == "lookup":
+        return _agent_str(op[2], m.agent(op[2]))
+    if kind == "ids":
+        return f"ids{op[2]}=" + _guard(lambda: ",".join(str(i) for i in m.agent_ids(TYPES[op[2]])))
+    if kind == "cnt":
+        return f"cnt{op[2]}=" + str(_guard(lambda: m.agent_count(TYPES[op[2]])))
+    if kind == "cps":
+        return f"cps{op[2]}.{op[3]}=" + str(_guard(lambda: m.agent_count_per_state(TYPES[op[2]], STATES[op[3]])))
+    if kind == "nx":
+        a = m.next_agent(TYPES[op[2]], STATES[op[3]])
+        return f"nx{op[2]}.{op[3]}=" + ("none" if a is None else str(a.id))
+    if kind == "rnd":
+        sc, saved = Scripted(op[4]), mm.random
+        mm.random = sc
+        try:
+            res = m.random_agents(TYPES[op[2]], op[3])
+        except Exception:
+            res = None
+        finally:
+            mm.random = saved
+        if res is not None and sc.calls != len(res):
+            return None           # the code did not draw through random.random(): nothing to compare against the script
+        return f"rnd{op[2]}.{op[3]}=" + ("ERR" if res is None else ",".join(map(str, res)))
+    raise ValueError(op)
 
 
 def query_real(m):
     """Canonical line, same format as Drive/C14.lean `query`."""
-    def guard(f):
-        try:
-            return str(f())
-        except Exception:
-            return "ERR"
     nxt = m.next_agent_id
-    ids = ";".join(f"ids{t}=" + ",".join(str(i) for i in m.agent_ids(TYPES[t])) for t in range(2))
-    cnt = ";".join(f"cnt{t}={m.agent_count(TYPES[t])}" for t in range(2))
-    cps = ";".join(f"cps{t}.{s}=" + guard(lambda: m.agent_count_per_state(TYPES[t], STATES[s]))
-                   for t in range(2) for s in range(3))
-    lk = []
-    for i in range(nxt + 2):
-        a = m.agent(i)
-        lk.append(f"a{i}=none" if a is None else f"a{i}={a.id}.{TYPES.index(a.agent_type)}.{STATES.index(a.state)}")
-    nx = []
-    for t in range(2):
-        for s in range(3):
-            a = m.next_agent(TYPES[t], STATES[s])
-            nx.append(f"nx{t}.{s}=" + ("none" if a is None else str(a.id)))
-    return f"{ids};{cnt};{cps};{';'.join(lk)};{';'.join(nx)};next={nxt}"
+    T, S = range(3), range(3)
+    ids = ";".join(query_one(m, ("q", "ids", t)) for t in T)
+    cnt = ";".join(query_one(m, ("q", "cnt", t)) for t in T)
+    cps = ";".join(query_one(m, ("q", "cps", t, s)) for t in T for s in S)
+    lk = ";".join(_agent_str(i, m.agent(i)) for i in range(nxt + 2))
+    nx = ";".join(query_one(m, ("q", "nx", t, s)) for t in T for s in S)
+    return f"{ids};{cnt};{cps};{lk};{nx};next={nxt}"
 
 
 class Shadow:
     """Reference semantics of the property, independent of the Lean model: the live population."""
-    def __init__(self):
-        self.live = []      # [id, ty, st] in creation order
+    def __init__(self, fac=None):
+        self.live = []      # [id, attr, st, key] in creation order
         self.next = 0
         self.ever = []
+        self.fac = fac
+    def copy(self):
+        s = Shadow(self.fac); s.live = [list(a) for a in self.live]; s.next = self.next; s.ever = list(self.ever)
+        return s
+    def create(self, k):
+        if k not in REG:
+            return False                      # create_agent raises, nothing handed out
+        self.live.append([self.next, fac_attr(self.fac, k, self.next), 0, k]); self.ever.append(self.next); self.next += 1
+        return True
     def apply(self, op):
         k = op[0]
         if k == "create":
-            self.live.append([self.next, op[1], 0]); self.ever.append(self.next); self.next += 1
+            self.create(op[1])
         elif k == "delete":
             self.live = [a for a in self.live if a[0] not in op[1]]
-        elif k == "configure":
+        elif k in ("configure", "configureall"):
             self.live = []
             for t, n in op[1]:
                 for _ in range(n):
-                    self.apply(("create", t))
+                    if not self.create(t):
+                        return
         elif k == "reset":
             self.live = []
         elif k == "setstate":
@@ -97,25 +221,44 @@ class Shadow:
                     a[2] = op[2]
 
 
-def spec_violations(m, sh, seen_ids):
-    """Check the real model's queries against the statement of C14. Returns list of (key, text)."""
+def spec_violations(m, sh, contract):
+    """Check the real model's queries against the statement of C14. Returns list of (key, text).
+    `contract` = the history's factories are faithful and nothing mutated a returned list: the whole
+    statement applies; otherwise only its factory-independent clauses (ids, lookup, next_agent)."""
     out = []
     ids_live = [a.id for a in m.agents]
+    live_ids = [a[0] for a in sh.live]
     if len(set(ids_live)) != len(ids_live):
         out.append(("ids-not-unique", f"live ids {ids_live}"))
-    if sorted(ids_live) != sorted(a[0] for a in sh.live):
-        out.append(("live-set", f"live ids {ids_live} expected {[a[0] for a in sh.live]}"))
+    if sorted(ids_live) != sorted(live_ids):
+        out.append(("live-set", f"live ids {ids_live} expected {live_ids}"))
+    if m.next_agent_id != sh.next:
+        out.append(("next-id", f"next_agent_id {m.next_agent_id} expected {sh.next}"))
     for i in range(m.next_agent_id + 2):
         a = m.agent(i)
         exp = next((x for x in sh.live if x[0] == i), None)
-        if (a is None) != (exp is None) or (a is not None and (a.id != i or TYPES.index(a.agent_type) != exp[1] or STATES.index(a.state) != exp[2])):
+        if (a is None) != (exp is None) or (a is not None and (a.id != i or _tyidx(a.agent_type) != exp[1] or STATES.index(a.state) != exp[2])):
             out.append(("lookup", f"agent({i}) -> {None if a is None else (a.id, a.agent_type, a.state)} expected {exp}"))
-    for t in range(2):
+    for t in range(3):
+        for s in range(3):
+            exp = next((x[0] for x in sh.live if x[1] == t and x[2] == s), None)
+            a = m.next_agent(TYPES[t], STATES[s])
+            if (None if a is None else a.id) != exp:
+                out.append(("next_agent", f"next_agent({TYPES[t]},{STATES[s]}) = {None if a is None else a.id} expected {exp}"))
+    for t in REG if contract else []:
         exp_ids = [x[0] for x in sh.live if x[1] == t]
-        if list(m.agent_ids(TYPES[t])) != exp_ids:
-            out.append(("agent_ids", f"agent_ids({TYPES[t]}) = {m.agent_ids(TYPES[t])} expected {exp_ids}"))
-        if m.agent_count(TYPES[t]) != len(exp_ids):
-            out.append(("agent_count", f"agent_count({TYPES[t]}) = {m.agent_count(TYPES[t])} expected {len(exp_ids)}"))
+        try:
+            got_ids = list(m.agent_ids(TYPES[t]))
+        except Exception as e:
+            got_ids = f"raises {type(e).__name__}"
+        if got_ids != exp_ids:
+            out.append(("agent_ids", f"agent_ids({TYPES[t]}) = {got_ids} expected {exp_ids}"))
+        try:
+            got = m.agent_count(TYPES[t])
+        except Exception as e:
+            got = f"raises {type(e).__name__}"
+        if got != len(exp_ids):
+            out.append(("agent_count", f"agent_count({TYPES[t]}) = {got} expected {len(exp_ids)}"))
         for s in range(3):
             exp = sum(1 for x in sh.live if x[1] == t and x[2] == s)
             try:
@@ -124,10 +267,53 @@ def spec_violations(m, sh, seen_ids):
                 got = f"raises {type(e).__name__}"
             if got != exp:
                 out.append(("agent_count_per_state", f"agent_count_per_state({TYPES[t]},{STATES[s]}) = {got} expected {exp}"))
+        # random_agents with the REAL random source: ids of live agents of the type, min(num, n) of them
+        for num in (1, len(exp_ids) + 1):
+            try:
+                got = m.random_agents(TYPES[t], num)
+                bad = len(got) != min(num, len(exp_ids)) or any(i not in exp_ids for i in got)
+            except Exception as e:
+                got, bad = f"raises {type(e).__name__}", True
+            if bad:
+                out.append(("random_agents", f"random_agents({TYPES[t]},{num}) = {got}; live ids of the type {exp_ids}"))
     for i in ids_live:
-        if i in seen_ids and i not in [a[0] for a in sh.live]:
+        if i in sh.ever and i not in live_ids:
             out.append(("id-reused", f"id {i}"))
     return out
+
+
+def single_query_violation(ans, op, sh, contract):
+    """Reference answer of ONE query op from the live population (None = this clause is not fixed by
+    the statement for this history)."""
+    kind = op[1]
+    if ans is None:
+        return None
+    if kind == "lookup":
+        x = next((x for x in sh.live if x[0] == op[2]), None)
+        exp = f"a{op[2]}=none" if x is None else f"a{op[2]}={x[0]}.{x[1]}.{x[2]}"
+        return None if ans == exp else ("lookup", f"{op_line(op)} -> {ans} expected {exp}")
+    if kind == "nx":
+        x = next((x[0] for x in sh.live if x[1] == op[2] and x[2] == op[3]), None)
+        exp = f"nx{op[2]}.{op[3]}=" + ("none" if x is None else str(x))
+        return None if ans == exp else ("next_agent", f"{op_line(op)} -> {ans} expected {exp}")
+    if not contract or op[2] not in REG:
+        return None
+    ids = [x[0] for x in sh.live if x[1] == op[2]]
+    if kind == "ids":
+        exp = f"ids{op[2]}=" + ",".join(map(str, ids))
+        return None if ans == exp else ("agent_ids", f"{op_line(op)} -> {ans} expected {exp}")
+    if kind == "cnt":
+        exp = f"cnt{op[2]}={len(ids)}"
+        return None if ans == exp else ("agent_count", f"{op_line(op)} -> {ans} expected {exp}")
+    if kind == "cps":
+        exp = f"cps{op[2]}.{op[3]}=" + str(sum(1 for x in sh.live if x[1] == op[2] and x[2] == op[3]))
+        return None if ans == exp else ("agent_count_per_state", f"{op_line(op)} -> {ans} expected {exp}")
+    if kind == "rnd":
+        body = ans.split("=", 1)[1]
+        got = None if body == "ERR" else [int(x) for x in body.split(",") if x]
+        if got is None or len(got) != min(op[3], len(ids)) or any(i not in ids for i in got):
+            return ("random_agents", f"{op_line(op)} -> {ans}; live ids of the type {ids}")
+    return None
 
 
 def concrete_ops(shadow_live, nxt):
@@ -141,34 +327,72 @@ def concrete_ops(shadow_live, nxt):
     return ops
 
 
-def run_history(ops):
-    """Real code on `ops`; returns (query lines after each op, spec violations with index)."""
-    m, sh = new_model(), Shadow()
-    lines, viols = [], []
-    for i, op in enumerate(ops):
-        apply_real(m, op)
-        sh.apply(op)
-        lines.append(query_real(m))
-        v = spec_violations(m, sh, sh.ever)
+class Hist:
+    """fac: {key: [attr by id % len]} or None; ops; mode 'full' (every query after every operation)
+    or 'sparse' (queries are operations; one full query at the end)."""
+    def __init__(self, ops, fac=None, mode="full", tag="random"):
+        self.ops, self.fac, self.mode, self.tag = list(ops), fac, mode, tag
+    def contract(self):
+        return is_faithful(self.fac) and not any(
+            o[0] == "callerappend" or (o[0] == "create" and o[1] not in REG)
+            or (o[0] in ("configure", "configureall") and any(t not in REG for t, _ in o[1])) for o in self.ops)
+    def lines(self):
+        return [f"fac {k} " + (",".join(map(str, l)) or "-") for k, l in sorted((self.fac or {}).items())] + [op_line(o) for o in self.ops]
+    def replay(self):
+        return {"fac": {str(k): l for k, l in (self.fac or {}).items()}, "mode": self.mode,
+                "ops": [op_line(o) for o in self.ops],
+                "variants": [o[2] if o[0] == "configureall" else 0 for o in self.ops]}
+
+
+def run_history(h):
+    """Real code on the history.  Returns (request lines, real reply lines (None = not comparable),
+    first (index, violations))."""
+    m, sh = new_model(h.fac), Shadow(h.fac)
+    contract = h.contract()
+    spec_ok = not any(o[0] == "callerappend" for o in h.ops)      # after a caller mutation nothing is promised
+    req, real, viols = ["new " + ",".join(map(str, REG))], ["ok"], []
+    for k, l in sorted((h.fac or {}).items()):
+        req.append(f"fac {k} " + (",".join(map(str, l)) or "-")); real.append("ok")
+    for i, op in enumerate(h.ops):
+        ans = apply_real(m, op)
+        req.append(op_line(op)); real.append(ans)
+        v = []
+        if op[0] == "q":
+            if spec_ok:
+                x = single_query_violation(ans, op, sh, contract)
+                v = [x] if x else []
+        else:
+            sh.apply(op)
+            if h.mode == "full":
+                req.append("query"); real.append(query_real(m))
+                if spec_ok:
+                    v = spec_violations(m, sh, contract)
         if v and not viols:
             viols = [(i, v)]
-    return lines, viols
+    if h.mode != "full":
+        req.append("query"); real.append(query_real(m))
+        if spec_ok and not viols:
+            v = spec_violations(m, sh, contract)
+            if v:
+                viols = [(len(h.ops) - 1, v)]
+    return req, real, viols
 
 
-def shrink(ops, fails):
-    ops = list(ops)
+def shrink(h, fails):
+    ops = list(h.ops)
     changed = True
     while changed:
         changed = False
         for i in range(len(ops)):
             cand = ops[:i] + ops[i + 1:]
-            if cand and fails(cand):
+            if cand and fails(Hist(cand, h.fac, h.mode, h.tag)):
                 ops = cand
                 changed = True
                 break
-    return ops
+    return Hist(ops, h.fac, h.mode, h.tag)
 
 
+# ------------------------------------------------------------------ probes
 def probe_count_by_id():
     m = new_model()
     for _ in range(4):
@@ -181,137 +405,321 @@ def probe_count_by_id():
         return False
 
 
-def gen_lean(count_by_id):
+def probe_alias():
+    """Is the list returned by agent_ids the registry's own list, and which operations rebind it?"""
+    f = {}
+    m = new_model()
+    l = m.agent_ids("a")
+    f["idsAliased"] = l is m.agent_type_map["a"]
+    m.create_agent("a", {}); m.create_agent("b", {})
+    f["create_mutates_in_place"] = (l == [0]) and (l is m.agent_type_map["a"])
+    lb = m.agent_type_map["b"]
+    m.delete_agent(0)
+    f["delete_rebinds_affected_type"] = m.agent_type_map["a"] is not l
+    f["delete_keeps_other_type_object"] = m.agent_type_map["b"] is lb
+    la = m.agent_type_map["a"]
+    m.configure_agents([{"name": "a", "count": 1}])
+    f["configure_rebinds"] = m.agent_type_map["a"] is not la and m.agent_type_map["b"] is not lb
+    la = m.agent_type_map["a"]
+    m.reset()
+    f["reset_rebinds"] = m.agent_type_map["a"] is not la
+    ags = m.agents
+    m.create_agent("a", {})
+    f["create_appends_agents_in_place"] = m.agents is ags
+    m.delete_agent(99)
+    f["delete_rebinds_agents"] = m.agents is not ags
+    # a caller that only reads a returned list: it is a live view until the next rebinding operation
+    m2 = new_model(); v = m2.agent_ids("a"); m2.create_agent("a", {})
+    f["held_list_sees_later_creates"] = v == [0]
+    m2.reset(); m2.create_agent("a", {})
+    f["held_list_stale_after_reset"] = v == [0] and m2.agent_ids("a") == [1]
+    return f
+
+
+ANYATTR_WITNESSES = [   # (name, fac, ops, what the Lean witness theorem says the model does)
+    ("stale", {0: [1]}, [("create", 0), ("delete", [0])],
+     "ids0=0;ids1=;ids2=ERR;cnt0=1;cnt1=0;cnt2=ERR;cps0.0=ERR;cps0.1=ERR;cps0.2=ERR;cps1.0=0;cps1.1=0;cps1.2=0;cps2.0=ERR;cps2.1=ERR;cps2.2=ERR;a0=none;a1=none;a2=none;"
+     "nx0.0=none;nx0.1=none;nx0.2=none;nx1.0=none;nx1.1=none;nx1.2=none;nx2.0=none;nx2.1=none;nx2.2=none;next=1"),
+    ("lost", {0: [1, 0]}, [("create", 0), ("create", 0), ("delete", [1])], None),
+    ("newkey", {0: [2]}, [("create", 0), ("delete", [0])], None),
+]
+
+
+def gen_lean(count_by_id, aliased):
     b = "true" if count_by_id else "false"
+    a = "true" if aliased else "false"
     body = (f"theorem holds : C14_full cfg := C14_full_of_good cfg (by decide)\n#print axioms holds\n" if count_by_id else
             f"theorem violated : ¬ C14_full cfg := C14_witness_positional cfg (by decide)\n#print axioms violated\n"
             f"#print axioms C14_partial\n")
+    if aliased:
+        body += ("/-- `agent_ids` hands out the registry's own list: a caller append corrupts it (outside the property's operations). -/\n"
+                 "theorem caller_can_corrupt : AliasCorrupts cfg := C14_alias_witness cfg (by decide)\n#print axioms caller_can_corrupt\n")
+    else:
+        body += ("theorem caller_cannot_corrupt : AliasSafe cfg := C14_alias_safe cfg (by decide)\n#print axioms caller_cannot_corrupt\n")
     return ("import Bptk.Props.C14\n/-! GENERATED by harness/props/c14.py from /repo on every run — do not edit. -/\n"
             "namespace Bptk.C14.Gen\n"
-            f"def cfg : Cfg := {{ countById := {b} }}\n" + body + "end Bptk.C14.Gen\n")
+            f"def cfg : Cfg := {{ countById := {b}, idsAliased := {a} }}\n" + body + "end Bptk.C14.Gen\n")
+
+
+# ------------------------------------------------------------------ generators
+def exhaustive(L, fac=None, tag="exhaustive"):
+    out = []
+    def rec_max(prefix, sh, depth):
+        if depth == L:
+            out.append(Hist(prefix, fac, "full", tag)); return
+        for op in concrete_ops(sh.live, sh.next):
+            s2 = sh.copy()
+            s2.apply(op)
+            rec_max(prefix + [op], s2, depth + 1)
+    rec_max([], Shadow(fac), 0)
+    return out
+
+
+def exhaustive_nodes(L, Lmin):
+    """Every history of length Lmin+1..L over the alphabet, as its own case with ONE full query at the
+    end (mode sparse): the states of all longer histories, without the intermediate queries."""
+    out = []
+    def rec(prefix, sh, depth):
+        if depth > Lmin:
+            out.append(Hist(prefix, None, "sparse", "exhaustive-final"))
+        if depth == L:
+            return
+        for op in concrete_ops(sh.live, sh.next):
+            s2 = sh.copy()
+            s2.apply(op)
+            rec(prefix + [op], s2, depth + 1)
+    rec([], Shadow(), 0)
+    return out
+
+
+def rand_spec(rng, offcontract):
+    return [(2 if offcontract and rng.chance(1, 6) else rng.below(2), rng.below(4)) for _ in range(rng.range(0, 3))]
+
+
+def rand_query(rng, sh):
+    dead = [i for i in sh.ever if i not in [a[0] for a in sh.live]]
+    r = rng.below(10)
+    if r < 4:
+        c = rng.below(4)
+        if c == 0 and sh.live: i = rng.choice(sh.live)[0]
+        elif c == 1 and dead: i = rng.choice(dead)
+        elif c == 2: i = sh.next + rng.below(3)                      # never alive (yet)
+        else: i = rng.below(sh.next + 2)
+        return ("q", "lookup", i)
+    if r == 4: return ("q", "ids", rng.below(3))
+    if r == 5: return ("q", "cnt", rng.below(3))
+    if r == 6: return ("q", "cps", rng.below(3), rng.below(3))
+    if r == 7: return ("q", "nx", rng.below(3), rng.below(3))
+    num = rng.below(5)
+    return ("q", "rnd", rng.below(2) if rng.chance(9, 10) else 2, num, [rng.choice([0, 63, 32, rng.below(64)]) for _ in range(num)])
+
+
+def rand_history(rng, mode, fac=None, offcontract=False, alias=False):
+    sh, ops = Shadow(fac), []
+    for _ in range(rng.range(5, 40)):
+        r = rng.below(12)
+        if mode == "sparse" and rng.chance(1, 2):
+            ops.append(rand_query(rng, sh)); continue
+        if alias and rng.chance(1, 8):
+            ops.append(("callerappend", rng.below(3), rng.below(sh.next + 3))); continue
+        if r < 4 or not sh.live:
+            op = ("create", 2 if offcontract and rng.chance(1, 8) else rng.below(2))
+        elif r < 6:
+            k = rng.range(1, 3)
+            op = ("delete", sorted({rng.choice(sh.live)[0] if rng.chance(4, 5) else rng.below(sh.next + 3) for _ in range(k)}))
+        elif r < 8:
+            op = ("setstate", rng.choice(sh.live)[0] if rng.chance(9, 10) else rng.below(sh.next + 3), rng.below(3))
+        elif r < 9:
+            op = ("configure", rand_spec(rng, offcontract))
+        elif r < 10:
+            op = ("configureall", rand_spec(rng, offcontract), rng.below(6))
+        elif r < 11:
+            # reconfiguration to the SAME population counts (in the same type order)
+            cnts = [(t, sum(1 for a in sh.live if a[3] == t)) for t in REG]
+            op = ("configure", cnts) if rng.chance(1, 2) else ("configureall", cnts, rng.below(6))
+        else:
+            op = ("reset",)
+        sh.apply(op); ops.append(op)
+    return Hist(ops, fac, mode, "random-" + mode + ("-anyattr" if not is_faithful(fac) else "") + ("-offcontract" if offcontract else "") + ("-alias" if alias else ""))
+
+
+def lookup_patterns(rng, n):
+    """Lookups of the same ids before and after every clearing operation, sparse (the lookup is the only
+    query between the operations): never alive / alive / no longer alive / alive again after the same count."""
+    out = []
+    clearers = [lambda c: ("configure", c), lambda c: ("configureall", c, 0), lambda c: ("reset",),
+                lambda c: ("delete", list(range(sum(x[1] for x in c))))]
+    for ca, cb in itertools.product(range(3), range(3)):
+        for ci, cl in enumerate(clearers):
+            if ca + cb == 0:
+                continue
+            cnts = [(0, ca), (1, cb)]
+            tot = ca + cb
+            look = [("q", "lookup", i) for i in range(2 * tot + 1)]
+            ops = look[:2] + [("configure", cnts)] + look + [cl(cnts)] + look + [("configure", cnts)] + look \
+                  + [("q", "cps", 0, 0), ("q", "ids", 1), cl(cnts)] + look + [("q", "cnt", 0), ("q", "nx", 1, 0)]
+            out.append(Hist(ops, None, "sparse", "lookup-pattern"))
+    for _ in range(n):
+        sh, ops = Shadow(), []
+        for _ in range(rng.range(2, 6)):
+            cnts = [(t, rng.below(3)) for t in rng.shuffle(REG)]
+            pre = [("q", "lookup", i) for i in rng.shuffle(list(range(sh.next + 2)))[:rng.range(1, 4)]]
+            op = rng.choice(clearers)(cnts) if sh.live and rng.chance(1, 2) else ("configure", cnts)
+            ops += pre + [op]; sh.apply(op)
+            ops += pre + [("q", "lookup", i) for i in rng.shuffle(list(range(sh.next + 1)))[:rng.range(1, 4)]]
+            if sh.live and rng.chance(1, 2):
+                o2 = ("setstate", rng.choice(sh.live)[0], rng.below(3)); ops.append(o2); sh.apply(o2)
+        out.append(Hist(ops, None, "sparse", "lookup-pattern"))
+    return out
+
+
+UNFAITHFUL = [{0: [1]}, {0: [1, 0]}, {0: [2]}, {0: [1, 0], 1: [2, 1, 0]}, {1: [0]}, {0: [0, 0, 1], 1: [1, 2]}]
 
 
 def histories(chk):
     """Exhaustive over the instantiated alphabet to length L, then seeded random long histories."""
     L = 4 if chk.quick else 6
-    out = []
-    def rec(prefix, sh, depth):
-        if prefix:
-            out.append(list(prefix))
-        if depth == L:
-            return
-        for op in concrete_ops(sh.live, sh.next):
-            s2 = Shadow(); s2.live = [list(a) for a in sh.live]; s2.next = sh.next; s2.ever = list(sh.ever)
-            s2.apply(op)
-            rec(prefix + [op], s2, depth + 1)
-    # only maximal histories are needed: queries are compared after every op
-    def rec_max(prefix, sh, depth):
-        if depth == L:
-            out.append(list(prefix)); return
-        for op in concrete_ops(sh.live, sh.next):
-            s2 = Shadow(); s2.live = [list(a) for a in sh.live]; s2.next = sh.next; s2.ever = list(sh.ever)
-            s2.apply(op)
-            rec_max(prefix + [op], s2, depth + 1)
-    rec_max([], Shadow(), 0)
-    n_exh = len(out)
+    hs = exhaustive(L)
+    n_exh = len(hs)
+    La = 3 if chk.quick else 4
+    hs_any = []
+    for fac in UNFAITHFUL[:2] if chk.quick else UNFAITHFUL[:4]:
+        hs_any += exhaustive(La, fac, "exhaustive-anyattr")
+    hs += hs_any
+    L7 = None
+    if not chk.quick:
+        L7 = 7
+        hs += exhaustive_nodes(L7, L)
     rng = chk.rng.fork("c14-random")
-    for _ in range(150 if chk.quick else 2000):
-        sh, ops = Shadow(), []
-        for _ in range(rng.range(5, 40)):
-            r = rng.below(10)
-            if r < 4 or not sh.live:
-                op = ("create", rng.below(2))
-            elif r < 6:
-                k = rng.range(1, 3)
-                op = ("delete", sorted({rng.choice(sh.live)[0] if rng.chance(4, 5) else rng.below(sh.next + 3) for _ in range(k)}))
-            elif r < 8:
-                op = ("setstate", rng.choice(sh.live)[0] if rng.chance(9, 10) else rng.below(sh.next + 3), rng.below(3))
-            elif r < 9:
-                op = ("configure", [(rng.below(2), rng.below(4)) for _ in range(rng.range(0, 3))])
-            else:
-                op = ("reset",)
-            sh.apply(op); ops.append(op)
-        out.append(ops)
-    return out, n_exh, L
+    n = 150 if chk.quick else 2000
+    for _ in range(n):
+        hs.append(rand_history(rng, "full"))
+    for _ in range(n):
+        hs.append(rand_history(rng, "sparse"))
+    hs += lookup_patterns(rng, n // 3)
+    for _ in range(n // 3):
+        hs.append(rand_history(rng, rng.choice(["full", "sparse"]), rng.choice(UNFAITHFUL)))
+    for _ in range(n // 3):
+        hs.append(rand_history(rng, rng.choice(["full", "sparse"]), rng.choice(UNFAITHFUL + [None, None]), offcontract=True))
+    for _ in range(n // 5):
+        hs.append(rand_history(rng, rng.choice(["full", "sparse"]), None, alias=True))
+    return hs, n_exh, L, len(hs_any), La, L7
 
 
 def run(chk):
     quiet_bptk_logging()
     count_by_id = probe_count_by_id()
-    chk.notes["cfg"] = {"countById": count_by_id}
-    ok, why = chk.prove(gen_lean(count_by_id))
+    alias = probe_alias()
+    chk.notes["cfg"] = {"countById": count_by_id, "idsAliased": alias["idsAliased"]}
+    chk.notes["alias_probe"] = alias
+    ok, why = chk.prove(gen_lean(count_by_id, alias["idsAliased"]))
     chk.cov["trusted_base"] = [
         "Lean 4.33 kernel; axioms propext, Classical.choice, Quot.sound (audited per run via #print axioms)",
-        "hand-written model lean/Bptk/Core/C14.lean of Model.create_agent(s)/delete_agent(s)/configure_agents/reset and the queries; tied to /repo by the correspondence run of this check and by the probe of agent_count_per_state",
-        "agent types/states mapped to numbers; factories create agents whose agent_type equals the registered type",
+        "hand-written model lean/Bptk/Core/C14.lean of Model.create_agent(s)/delete_agent(s)/configure_agents/configure/reset and the queries agent/agent_ids/agent_count/agent_count_per_state/next_agent/random_agents; tied to /repo by the correspondence run of this check and by the probes of agent_count_per_state and of agent_ids aliasing",
+        "agent types/states mapped to numbers; random.random() modelled as an oracle of rationals in [0,1] (scripted values u/64 in the correspondence; the real generator in the reference check)",
     ]
-    chk.assumptions = ["agent factories return Agent objects whose agent_type is the type they were registered for",
-                       "every agent type used is registered before the first operation"]
-    hs, n_exh, L = histories(chk)
+    chk.assumptions = ["C14_full: agent factories return Agent objects whose agent_type is the key they were registered under and whose id is the id handed to them (for other factories C14_partial_anyattr and the three decide-checked witnesses say what remains)",
+                       "agent factories are registered before the first operation and not re-registered (register_agent_factory empties the type's id list)",
+                       "callers do not mutate the list returned by agent_ids (it is the registry's own list: C14_alias_witness)",
+                       "random.random() returns a value in [0, 1]"]
+    hs, n_exh, L, n_any, La, L7 = histories(chk)
     chk.cov["rule"] = (f"all histories of length {L} over the alphabet {{create a, create b, delete oldest, delete newest, "
                        f"delete missing, configure, reset, set-state oldest/newest}} instantiated on the live population "
-                       f"({n_exh} histories, queries compared after every operation), plus seeded random histories of length 5..40; "
+                       f"({n_exh} histories, every query compared after every operation); the same to length {La} with factories whose agent_type differs from the key ({n_any}); "
+                       + (f"every history of length {L + 1}..{L7} with all queries at its end; " if L7 else "")
+                       + "seeded random histories of length 5..40 in two modes (all queries after every operation / queries as sparse operations incl. "
+                       "lookups of never-, no-longer- and again-alive ids and random_agents with scripted draws), lookup patterns around every clearing "
+                       "operation with the same agent counts, Model.configure, unfaithful factories, unregistered types, caller appends; "
                        "a case is the canonical op sequence; non-trivial = contains at least one deletion/configure/reset")
     chk.cov["exhaustive_histories"] = n_exh
+    chk.cov["exhaustive_anyattr_histories"] = n_any
     chk.cov["exhaustive"] = False
     # real side
-    req, real = [f"cfg countById {1 if count_by_id else 0}"], ["ok"]
+    req, real, owner = [f"cfg countById {1 if count_by_id else 0}", f"cfg idsAliased {1 if alias['idsAliased'] else 0}"], ["ok", "ok"], [None, None]
     first_spec_fail = None
-    kinds = {}
-    for ops in hs:
-        lines, viols = run_history(ops)
-        req.append("new"); real.append("ok")
-        for op, ln in zip(ops, lines):
-            req.append(op_line(op)); real.append("ok")
-            req.append("query"); real.append(ln)
-            kinds[op[0]] = kinds.get(op[0], 0) + 1
-        chk.case(tuple(map(op_line, ops)), nontrivial=any(o[0] in ("delete", "configure", "reset") for o in ops),
-                 sample=[op_line(o) for o in ops] if len(ops) > 5 else None)
+    kinds, tags, skipped_rnd, n_rnd = {}, {}, 0, 0
+    for hi, h in enumerate(hs):
+        rq, rl, viols = run_history(h)
+        req += rq; real += rl; owner += [hi] * len(rq)
+        for op in h.ops:
+            kk = op[0] + ("-" + op[1] if op[0] == "q" else "")
+            kinds[kk] = kinds.get(kk, 0) + 1
+        n_rnd += sum(1 for o in h.ops if o[0] == "q" and o[1] == "rnd")
+        tags[h.tag] = tags.get(h.tag, 0) + 1
+        chk.case(tuple(h.lines()) + (h.mode,), nontrivial=any(o[0] in ("delete", "configure", "configureall", "reset") for o in h.ops),
+                 sample=h.lines() if len(h.ops) > 5 and h.tag.startswith("random") and hi % 7 == 0 else None)
         if viols and first_spec_fail is None:
-            first_spec_fail = (ops, viols[0])
+            first_spec_fail = (h, viols[0])
+    skipped_rnd = sum(1 for x in real if x is None)
     chk.cov["op_distribution"] = kinds
+    chk.cov["history_kinds"] = tags
+    chk.cov["random_agents_scripted"] = {"queries": n_rnd, "not_comparable_oracle_bypassed": skipped_rnd}
     if not chk.cov["samples"]:
-        chk.cov["samples"].append([op_line(o) for o in hs[0]])
+        chk.cov["samples"].append(hs[0].lines())
     model = drive("C14", req)
     chk.cov["traces_validated_against_impl"] = len(hs)
-    diff = next((i for i, (a, b) in enumerate(zip(model, real)) if a != b), None)
-    if diff is None and len(model) != len(real):
-        diff = min(len(model), len(real))
+    alld = [i for i, (a, b) in enumerate(zip(model, real)) if b is not None and a != b]
+    # WHICH agents random_agents returns is not fixed by the statement (only: live ids of the type, min(num, n) of them —
+    # checked by the reference on every such query); a different but valid use of random() is reported, never a finding
+    rnd_diffs = [i for i in alld if req[i].startswith("q rnd")]
+    diffs = [i for i in alld if not req[i].startswith("q rnd")]
+    chk.cov["random_agents_scripted"]["model_matches_impl"] = not rnd_diffs
+    if rnd_diffs:
+        i = rnd_diffs[0]
+        chk.cov["random_agents_scripted"]["first_difference"] = {"request": req[i], "model": model[i], "impl": real[i]}
+    if len(model) != len(real):
+        diffs.append(min(len(model), len(real)))
+    contract_diff = next((i for i in diffs if owner[i] is None or hs[owner[i]].contract()), None)
+    off_diff = next((i for i in diffs if owner[i] is not None and not hs[owner[i]].contract()), None)
+    chk.notes["offcontract_model_matches_impl"] = off_diff is None
+    if off_diff is not None:
+        # behaviour under a broken factory contract / unregistered type / caller mutation is not fixed by the statement:
+        # reported, never a finding
+        chk.notes["offcontract_first_difference"] = {"history": hs[owner[off_diff]].replay(), "request": req[off_diff],
+                                                     "model": model[off_diff] if off_diff < len(model) else None, "impl": real[off_diff]}
+    # witnesses of the factory-contract assumption, replayed on the real code (documentation of the assumption, not a defect)
+    wit = {}
+    for name, fac, ops, expect in ANYATTR_WITNESSES:
+        h = Hist(ops, fac, "sparse", "witness")
+        rq, rl, _ = run_history(h)
+        md = drive("C14", rq)
+        wit[name] = {"fac": fac, "ops": [op_line(o) for o in ops], "impl": rl[-1], "model_agrees": md[-1] == rl[-1],
+                     "as_stated_in_Lean": (expect is None or expect == rl[-1])}
+    chk.notes["anyattr_witnesses_on_real_code"] = wit
     # --- decide
     if first_spec_fail is not None:
-        ops, (idx, v) = first_spec_fail
+        h, (idx, v) = first_spec_fail
         key0 = v[0][0]
-        small = shrink(ops[:idx + 1], lambda c: any(x[0] == key0 for _, vs in run_history(c)[1] for x in vs))
-        _, vv = run_history(small)
-        chk.add_finding(key0, f"after {[op_line(o) for o in small]}: {vv[0][1][0][1]}",
-                        {"ops": [op_line(o) for o in small], "violations": vv[0][1]})
+        small = shrink(Hist(h.ops[:idx + 1], h.fac, h.mode, h.tag), lambda c: any(x[0] == key0 for _, vs in run_history(c)[2] for x in vs))
+        _, _, vv = run_history(small)
+        rp = small.replay(); rp["violations"] = vv[0][1]
+        chk.add_finding(key0, f"after {small.lines()}: {vv[0][1][0][1]}", rp)
     if not count_by_id and first_spec_fail is None:
         chk.add_finding("agent_count_per_state", "probe: create a x4, delete 1, set-state 3 s1: agent_count_per_state wrong or raises",
                         {"ops": ["create 0"] * 4 + ["delete 1", "setstate 3 1"]})
     if not ok:
         chk.add_finding("obligation", f"proof obligations of C14 no longer check: {why}",
                         {"theorem": "Bptk.C14.Gen.holds / Bptk.Props.C14", "detail": why}, found_input=False)
-    if diff is not None and first_spec_fail is None:
-        # locate the history of the differing line
+    if contract_diff is not None and first_spec_fail is None:
+        diff = contract_diff
+        hrep = hs[owner[diff]].replay() if owner[diff] is not None else None
         chk.add_finding("correspondence", f"model and implementation disagree at protocol line {diff}: request {req[diff]!r}",
                         {"correspondence": "Drive/C14 vs BPTK_Py.Model", "line": diff, "request_context": req[max(0, diff - 12):diff + 1],
+                         "history": hrep,
                          "model": model[diff] if diff < len(model) else None, "impl": real[diff] if diff < len(real) else None},
                         found_input=False)
 
 
 def replay(path):
-    import json
     quiet_bptk_logging()
     r = json.load(open(path))["replay"]
-    ops = []
-    for l in r.get("ops", []):
-        p = l.split()
-        if p[0] == "create": ops.append(("create", int(p[1])))
-        elif p[0] == "delete": ops.append(("delete", [] if p[1] == "-" else [int(x) for x in p[1].split(",")]))
-        elif p[0] == "configure": ops.append(("configure", [] if p[1] == "-" else [tuple(map(int, x.split(":"))) for x in p[1].split(",")]))
-        elif p[0] == "reset": ops.append(("reset",))
-        else: ops.append(("setstate", int(p[1]), int(p[2])))
-    lines, viols = run_history(ops)
+    if "history" in r and r.get("history"):
+        r = r["history"]
+    variants = r.get("variants") or [0] * len(r.get("ops", []))
+    ops = [parse_line(l, v) for l, v in zip(r.get("ops", []), variants)]
+    fac = {int(k): v for k, v in (r.get("fac") or {}).items()} or None
+    _, _, viols = run_history(Hist(ops, fac, r.get("mode", "full"), "replay"))
+    print("fac:", fac, "mode:", r.get("mode", "full"))
     print("ops:", r.get("ops"))
     print("violations on the current tree:", viols)
     return 1 if viols else 0
